@@ -16,7 +16,7 @@ def partLevel : List (Option Int × Int) → Int → Option Int
   | (some h, l) :: rest, s => if s < h then some l else partLevel rest s
 
 /-- Shape of the middleware body in logger.go: `next(c)` is called exactly once as a plain statement; both `LogAttrs`
-    calls come after it, in the two arms of one if/else; no defer/go/recover; `c.Writer()` is only read
+    calls come after it, exactly one of them on every control-flow path; no defer/go/recover; `c.Writer()` is only read
     (`Status()`, `Header().Get`); message = `ipStr`, level = `lvl`; `location` is only assigned under
     `lvl == slog.LevelDebug`. -/
 theorem logger_facts_tie :
